@@ -67,8 +67,23 @@ def gen_lybtree():
     want("P_METACOUNT", pr, "lyb_print_metadata", r"lyb_write\(out,&count,(\w+),lybctx->lybctx\)", doc="metadata count")
     want("P_METANAME", pr, "lyb_print_metadata", r"lyb_write_string\(iter->name,0,(sizeof\(\w+\)),out,lybctx->lybctx\)", doc="annotation name length")
     want("P_METAVAL", pr, "lyb_print_metadata", r"lyb_write_string\(lyd_get_meta_value\(iter\),0,(sizeof\(\w+\)),out,lybctx->lybctx\)", doc="metadata value length")
-    want("P_WDNAME", pr, "lyb_print_metadata", r"lyb_write_string\(\"default\",0,(sizeof\(\w+\)),out,lybctx->lybctx\)", doc="wd default annotation name length")
-    want("P_WDVAL", pr, "lyb_print_metadata", r"lyb_write_string\(\"true\",0,(sizeof\(\w+\)),out,lybctx->lybctx\)", doc="wd default annotation value length")
+    # the with-defaults annotation block of lyb_print_metadata (finding F330: fixes/F330.diff removes it)
+    b = body(pr, "lyb_print_metadata")
+    wd_get = 'wd_mod=ly_ctx_get_module_latest(node->schema->module->ctx,"ietf-netconf-with-defaults");' in b
+    wd_cond = ("if(((node->flags&LYD_DEFAULT)&&(lybctx->print_options&(LYD_PRINT_WD_ALL_TAG|LYD_PRINT_WD_IMPL_TAG)))||"
+               "((lybctx->print_options&LYD_PRINT_WD_ALL_TAG)&&lyd_is_default(node))){") in b
+    wd_write = "if(wd_mod){LY_CHECK_RET(lyb_print_model(out,wd_mod,0,lybctx->lybctx));" in b
+    wd_annot = None
+    if wd_get and wd_cond and wd_write and "if(wd_mod){++count;}" in b:
+        wd_annot = True
+        want("P_WDNAME", pr, "lyb_print_metadata", r"lyb_write_string\(\"default\",0,(sizeof\(\w+\)),out,lybctx->lybctx\)", doc="wd default annotation name length")
+        want("P_WDVAL", pr, "lyb_print_metadata", r"lyb_write_string\(\"true\",0,(sizeof\(\w+\)),out,lybctx->lybctx\)", doc="wd default annotation value length")
+    elif "wd_mod" not in b and "with-defaults" not in b and "LYD_PRINT_WD" not in b:
+        wd_annot = False
+        vals.append(("P_WDNAME", 2, "lyb_print_metadata: (no with-defaults annotation in this tree; width of an annotation name)"))
+        vals.append(("P_WDVAL", 8, "lyb_print_metadata: (no with-defaults annotation in this tree; width of an annotation value)"))
+    else:
+        missing.append("lyb_print_metadata: with-defaults block of an unknown shape")
     b = body(pr, "lyb_print_node_header")
     if "lyb_write_number(node->flags,sizeofnode->flags,out,lybctx->lybctx)" in b and re.search(r"uint32_t\s+flags;", open(os.path.join(ex.SRC, "tree_data.h")).read()):
         vals.append(("P_FLAGS", 4, "lyb_print_node_header: sizeof node->flags (uint32_t flags in struct lyd_node)"))
@@ -99,6 +114,8 @@ def gen_lybtree():
     want("R_METACOUNT", pa, "lyb_parse_metadata", r"lyb_read\(&count,(\w+),lybctx->lybctx\)", doc="metadata count")
     want("R_METANAME", pa, "lyb_parse_metadata", r"lyb_read_string\(&meta_name,(sizeof\(\w+\)),lybctx->lybctx\)", doc="annotation name length")
     want("R_METAVAL", pa, "lyb_parse_metadata", r"lyb_read_string\(&meta_value,(sizeof\(\w+\)),lybctx->lybctx\)", doc="metadata value length")
+    want("R_METASKIPNAME", pa, "lyb_parse_metadata", r"if\(!mod\)\{lyb_skip_string\((sizeof\(\w+\)),lybctx->lybctx\);", doc="skip branch (module of the annotation not in the context): annotation name length")
+    want("R_METASKIPVAL", pa, "lyb_parse_metadata", r"if\(!mod\)\{lyb_skip_string\(sizeof\(\w+\),lybctx->lybctx\);lyb_skip_string\((sizeof\(\w+\)),lybctx->lybctx\);continue;\}", doc="skip branch: metadata value length (finding F331: 2 on the pinned tree, printed on 8)")
     want("R_FLAGS", pa, "lyb_parse_node_header", r"lyb_read_number\(flags,sizeof\*flags,(sizeof\*flags),lybctx->lybctx\)", {"flags": "uint32_t"}, "node flags")
     want("R_TERMLEN", pa, "lyb_read_term_value", r"lyb_read_number\(term_value_len,sizeof\*term_value_len,(sizeof\*term_value_len),lybctx\)",
          {"term_value_len": "uint64_t"}, "length of a variable-size term value")
@@ -165,6 +182,8 @@ def gen_lybtree():
     out.append("def P_MAGIC : List Nat := %s" % (magic or []))
     out.append("/-- parser: lyb_parse_magic_number -/")
     out.append("def R_MAGIC : List Nat := %s" % (rmagic or []))
+    out.append("/-- lyb_print_metadata writes the ietf-netconf-with-defaults:default annotation under ALL_TAG / IMPL_TAG (finding F330; false once fixes/F330.diff is applied) -/")
+    out.append("def lybWdAnnot : Bool := %s" % ("true" if wd_annot else "false"))
     try:
         vm = ex.Macros(["lyb.h"]).value("LYB_VERSION_MASK")
         out.append("def LYB_VERSION_MASK : Nat := %d" % vm)
